@@ -41,6 +41,7 @@ class ExprInModel(ExprModel):
     def build(self, btor, ctx_width=-1):
         t = None
         expr = None
+        skipped_rand_sz = False
         for r in self.rhs.rl:
             if isinstance(r, ExprRangeModel):
                 t = ExprBinModel(
@@ -54,7 +55,7 @@ class ExprInModel(ExprModel):
                     arr : FieldArrayModel = r.fm
                     
                     if arr.is_rand_sz:
-                        pass
+                        skipped_rand_sz = True
                     else:
                         for i in range(int(arr.size.get_val())):
                             t = ExprBinModel(
@@ -80,7 +81,9 @@ class ExprInModel(ExprModel):
                     expr = ExprBinModel(expr, BinExprType.Or, t)
 
         if expr is None:
-            expr = ExprLiteralModel(1, False, 1)
+            # Nothing is a member of an empty set. (A random-size list 
+            # is not expanded yet: it imposes nothing)
+            expr = ExprLiteralModel(1 if skipped_rand_sz else 0, False, 1)
 
         from vsc.visitors.model_pretty_printer import ModelPrettyPrinter
         return expr.build(btor) if expr is not None else None
